@@ -2,6 +2,7 @@ package core
 
 import (
 	"fmt"
+	"math"
 	"sync/atomic"
 )
 
@@ -37,9 +38,17 @@ func (a *IDAllocator) Reserve(n uint64) (first, last uint64, err error) {
 	if n == 0 {
 		return 0, 0, fmt.Errorf("%w: reserve n must be >= 1", ErrInvalidBatch)
 	}
-	last = a.next.Add(n)
-	first = last - n + 1
-	return first, last, nil
+	// A request for more ids than are left must not wrap the counter around: the ids after
+	// the wrap would all have been handed out before.
+	for {
+		cur := a.next.Load()
+		if n > math.MaxUint64-cur {
+			return 0, 0, fmt.Errorf("%w: reserve of %d exceeds the %d ids left", ErrInvalidBatch, n, math.MaxUint64-cur)
+		}
+		if a.next.CompareAndSwap(cur, cur+n) {
+			return cur + 1, cur + n, nil
+		}
+	}
 }
 
 // Current returns the last allocated ID.
